@@ -289,6 +289,14 @@ class StrAI:
             if isinstance(v, TableVal):
                 for i, e in enumerate(t.elts):
                     self.assign(e, TableVal(v.table, v.key, v.proj + (i,)), env)
+            elif isinstance(v, (tuple, list)) and sum(isinstance(e, ast.Starred) for e in t.elts) == 1 and len(v) >= len(t.elts) - 1:
+                k = next(i for i, e in enumerate(t.elts) if isinstance(e, ast.Starred))
+                after = len(t.elts) - k - 1
+                for e, x in zip(t.elts[:k], v[:k]):
+                    self.assign(e, x, env)
+                self.assign(t.elts[k].value, list(v[k: len(v) - after]), env)
+                for e, x in zip(t.elts[k + 1:], v[len(v) - after:] if after else []):
+                    self.assign(e, x, env)
             elif isinstance(v, (tuple, list)) and len(v) == len(t.elts):
                 for e, x in zip(t.elts, v):
                     self.assign(e, x, env)
